@@ -417,7 +417,7 @@ func (w *world) grid() []produced {
 				for _, h := range hashes {
 					nsh := 1
 					if c.Thorough {
-						nsh = 4
+						nsh = 8
 					}
 					for r := 0; r < nsh; r++ {
 						sh := small(k)
